@@ -71,6 +71,11 @@ class CallMixin:
                 if fn.py[1] == 'items':
                     return VTuple([VTuple([VOpaque(k, 'const'), v]) for k, v in fn.py[0].items()])
                 raise Unsupported(f"kwargs.{fn.py[1]}")
+            if fn.tag == 'opaque' and fn.py == 'np.dtype' and len(args) == 1:
+                a0 = args[0]
+                nm = a0.py if isinstance(a0, VOpaque) else (a0.name if isinstance(a0, VCallable) and a0.kind == 'builtin' else None)
+                if isinstance(nm, str):
+                    return VOpaque(f"dtype:{nm}", 'const')     # numpy dtype objects are identified by their constructor argument
             if fn.tag == 'opaque':
                 key = '.'.join(map(str, fn.py)) if isinstance(fn.py, tuple) else str(fn.py)
                 c = self.reg.get(key)
